@@ -22,6 +22,8 @@ def write(prop, tier, seed, records, wall_s, violations, assumptions, explanatio
             # SX/KX: every case (one solver question with its own bounds) that reached its assertion
             nontrivial += sum(1 for c in r.get("case_results", []) if c.get("sample") is not None) or (
                 1 if r.get("twin") == "reachable" else 0)
+            if r.get("verdict") == "violation":
+                nontrivial += 1          # a replayed counterexample is a distinct, non-trivial case
     samples = []
     for r in records[:]:
         samples.append(dict(obligation=r["name"], engine=r["engine"], cls=r.get("class"),
@@ -50,8 +52,9 @@ def write(prop, tier, seed, records, wall_s, violations, assumptions, explanatio
     try:
         import jsonschema
         jsonschema.validate(json.load(open(path)), json.load(open(SCHEMA)))
-    except ImportError:
+    except (ImportError, FileNotFoundError):
         pass
-    except FileNotFoundError:
-        pass
+    except Exception as e:       # never turn a verdict into a machinery error
+        import sys
+        print(f"WARNING evidence file does not validate: {str(e).splitlines()[0]}", file=sys.stderr)
     return path
